@@ -300,6 +300,14 @@ def full_range_loops(fn):
     return out
 
 
+# members of an operator implementation object that are configuration, not state
+IMPL_CONFIG = {
+    "m_op_ptr": "pointer to the user's operator object (its parameters are inputs of update_routes)",
+    "m_basin_graph_ptr": "owning pointer re-created when the operator's method changes (C09-P5); the "
+                         "basin graph's own members are audited separately",
+}
+
+
 def audit(db, eff, chk, uname):
     unit = db.units[uname]
     ops = model.operator_classes(unit)
@@ -331,10 +339,15 @@ def audit(db, eff, chk, uname):
             assumed = set(router_tables)     # produced by the preceding router in the same call
 
         def tracked(key, assumed=assumed):
-            if key[0] != ("p", 0) or len(key) < 2 or key[1][0] != "f":
+            if len(key) != 2 or key[1][0] != "f":
                 return False
             m = key[1][1]
-            return m in W and m not in assumed and len(key) == 2
+            if key[0] == ("this",):
+                # members of the operator implementation object persist between calls as well
+                return m not in IMPL_CONFIG
+            if key[0] != ("p", 0):
+                return False
+            return m in W and m not in assumed
         kw = KillWalk(eff, tracked)
         kw.stack.append(ap.key)
         kw.run_fn(ap, {("p", 0): {(("p", 0),)}, ("p", 1): {(("p", 1),)}, ("this",): {(("this",),)}},
@@ -344,6 +357,8 @@ def audit(db, eff, chk, uname):
         for key, kinds in sorted(kw.touched.items(), key=lambda x: path_str(x[0])):
             m = key[1][1]
             label = "%s::apply" % op.split("::")[-1]
+            if key[0] == ("this",):
+                m = "impl." + m
             f = kw.findings.get(key)
             if f is None:
                 report(ap, label, m, "killed-before-read" if "kill" in kinds else "written-only", ap.ploc)
